@@ -322,3 +322,9 @@ Proof.
   destruct H as (s' & Hs & Post). exists s'. split; [exact Hs|]. split; [apply Post|].
   split; [eapply shift_post_rest; eauto|]. destruct Post as (_ & more & A & _ & C). exists more. split; assumption.
 Qed.
+
+(* the hypotheses of after_eof are satisfiable: the state every constructor builds on the empty input *)
+Example after_eof_hypotheses_satisfiable : exists s, Inv 0 s /\ rest s = [].
+Proof.
+  destruct (init_inv repaired eq_refl BFile 4096 1 [] [] ltac:(lia)) as (s & _ & I & R). exists s. split; assumption.
+Qed.
